@@ -24,7 +24,11 @@ def run(rep, props, replay=None):
     runq = C.CoqRun("C09", IMPORTS)
     todo = []
     n_cases = 24 if quick else 300
-    first_call_history(rep, rng)
+    first_call_history(rep, rng)       # must stay the first covariance call of the process
+    fd.dtype_monitor(rep, rng, {
+        "mean()": lambda d: d.mean().values, "covariance()": lambda d: d.covariance().values,
+        "noise_variance(order=1)": lambda d: d.noise_variance(order=1), "noise_variance(order=3)": lambda d: d.noise_variance(order=3),
+        "mean(LP)": lambda d: d.mean(method_smoothing="LP", bandwidth=6.0).values}, "sample estimators")
     for i in range(n_cases):
         kind = fd.GRID_KINDS[i % len(fd.GRID_KINDS)]
         n = int(rng.integers(2, 9 if quick else 40))
